@@ -17,7 +17,7 @@ A_COMMON = [
 
 PROPERTIES = {
     "C20": {
-        "units": ["arena_forest"], "kani": [], "kani_cex": ["graph_node_twins"],
+        "units": ["arena_forest"], "kani": ["graph_nodes"], "kani_cex": [],
         "explanation": "Forest invariant of the arena (ids = slots, links point forward to live nodes that point back, "
                        "child != next, every live non-root is the child xor next of its prev) is established by build_key and "
                        "preserved by every arena/builder primitive under contract; lemmas derive disjoint subtrees, a unique live "
@@ -62,7 +62,7 @@ PROPERTIES = {
         "assumptions": A_COMMON + ["A7 slot-free precondition of the primitives is a caller obligation (known to be violated by one input, DESIGN 2.3)"],
     },
     "C07": {
-        "units": ["ranges"], "kani": [], "kani_cex": ["ranges_twin"],
+        "units": ["ranges"], "kani": ["ranges"], "kani_cex": [],
         "explanation": "PARTIAL (section splitter): for all position vectors of any length, the ranges handed to process_section "
                        "partition [first split position, end) in order, each starting at a split position. Which positions are chosen "
                        "(process_blocks), heading-level arithmetic in the Projector and list padding are not covered.",
